@@ -161,3 +161,21 @@ def reversed_in_has_partner(texts: list[str]) -> bool:
         if counts.get(k, 0) >= 2:
             return True
     return False
+
+
+def has_prerelease_literal(markers) -> bool:
+    """Some version atom carries a pre / dev / post release *literal* (the mirror image of a
+    pre-release environment: PEP 440's exclusion rules then apply at evaluation, not in the algebra)."""
+    from .workloads.markers import walk_atoms
+
+    for m in markers:
+        for a in walk_atoms(m):
+            if getattr(a, "name", None) in VERSION_VARS and hasattr(a, "value"):
+                for piece in str(a.value).replace("*", "0").split(","):
+                    try:
+                        v = Version(piece.strip())
+                    except InvalidVersion:
+                        continue
+                    if v.pre is not None or v.dev is not None or v.post is not None:
+                        return True
+    return False
